@@ -272,8 +272,9 @@ def boundary_lengths(ctx, home):
     rejected, and an accepted pair gives the same model"""
     import json
     lens = ["0", "1", "2", "255", "65536", "4294967295", "4294967297", "9223372036854775807", "9223372036854775808", "18446744073709551615", "18446744073709551616",
-            "18446744073709551617", "340282366920938463463374607431768211457", "-1", "007", "1e3", "3.0"]
-    # (a hexadecimal length is a YAML spelling of an integer node; the short type syntax has its own grammar with decimal lengths only: not a pair of spellings of one model)
+            "18446744073709551617", "340282366920938463463374607431768211457", "-1", "007", "1e3", "3.0",
+            # integer literals with a base prefix / a leading zero: the short syntax for vectors, the short syntax for arrays and the expanded syntax must read them alike
+            "010", "0x10", "0o17", "0b101", "0X1f", "00", "0x0", "08", "1_0"]
     forms = {"vector": ("int*%s", "!vector {items: int, length: %s}"), "array": ("int[%s]", "!array {items: int, dimensions: [%s]}"),
              "named-dimension": ("int[d:%s]", "!array {items: int, dimensions: {d: %s}}"), "second-dimension": ("int[2, %s]", "!array {items: int, dimensions: [2, %s]}")}
     for kind, (short, expanded) in forms.items():
